@@ -543,7 +543,7 @@ pub fn scope_for(tier: Tier, prop: &str) -> TableScope {
     let labels4 = [0u8, 1, 2, 3];
     let ext4: Vec<Vec<u8>> = external_alphabet(&labels4, 9).into_iter().collect();
     let mid = unordered_pair_shapes(&labels4, 4);
-    let stride = tier.pick(173, 3);
+    let stride = tier.pick(173, 6);
     let mut nmid = 0;
     for (i, s) in mid.into_iter().enumerate() {
         if i % stride == 0 {
